@@ -21,6 +21,7 @@ type VerifRecWriter struct{ verifRecWriter }
 func (w *VerifRecWriter) Buf() []byte     { return w.buf }
 func (w *VerifRecWriter) Calls() int      { return w.calls }
 func (w *VerifRecWriter) SetFailAt(k int) { w.failAt = k }
+func (w *VerifRecWriter) SetFailFrom(k int) { w.failFrom = k }
 
 var VerifErrInjected = verifErrInjected
 
